@@ -52,7 +52,21 @@ let c15_table : (string * (Z.t list -> Z.t list option)) list = Model.[
 
 let c05_table : (string * (Z.t list -> Z.t list option)) list = Model.[ "friverify", run_friverify ]
 
-let tables = [ "c05", c05_table; "c15", c15_table; "c13", c13_table; "c12", c12_table; "c14", c14_table; "c01", c01_table; "c16", c16_table; "plonk", c01_table ]
+let c17_table : (string * (Z.t list -> Z.t list option)) list = Model.[
+  "enc_u8", run_enc_u8; "enc_u32", run_enc_u32; "enc_usize", run_enc_usize; "enc_bool", run_enc_bool;
+  "enc_field", run_enc_field; "enc_ext", run_enc_ext; "enc_hash", run_enc_hash; "enc_cap", run_enc_cap;
+  "enc_mproof", run_enc_mproof; "enc_usizevec", run_enc_usizevec; "enc_strategy", run_enc_strategy;
+  "enc_friconfig", run_enc_friconfig; "enc_friparams", run_enc_friparams;
+  "enc_circuitconfig", run_enc_circuitconfig; "enc_openings", run_enc_openings;
+  "enc_verifieronly", run_enc_verifieronly; "enc_proof", run_enc_proof;
+  "dec_u8", run_dec_u8; "dec_u32", run_dec_u32; "dec_usize", run_dec_usize; "dec_bool", run_dec_bool;
+  "dec_field", run_dec_field; "dec_ext", run_dec_ext; "dec_hash", run_dec_hash; "dec_cap", run_dec_cap;
+  "dec_mproof", run_dec_mproof; "dec_usizevec", run_dec_usizevec; "dec_strategy", run_dec_strategy;
+  "dec_friconfig", run_dec_friconfig; "dec_friparams", run_dec_friparams;
+  "dec_circuitconfig", run_dec_circuitconfig; "dec_verifieronly", run_dec_verifieronly;
+  "dec_openings", run_dec_openings; "dec_proof", run_dec_proof ]
+
+let tables = [ "c17", c17_table; "c05", c05_table; "c15", c15_table; "c13", c13_table; "c12", c12_table; "c14", c14_table; "c01", c01_table; "c16", c16_table; "plonk", c01_table ]
 
 let split_ws s = List.filter (fun x -> x <> "") (String.split_on_char ' ' s)
 
